@@ -25,6 +25,7 @@ func runC20(w *core.World, r *core.Report) {
 	r.Rule("R4", "blocked stays blocked: TERMINATE test between run and setCode; gate in Run; who may clear TERMINATE")
 	r.Rule("R6", "Finish saves whenever the engine was initialised and has a persister: every success return passes Persister.Save, the initd==false edge or the no-persister edge")
 	r.Rule("R5", "the reset path keeps client flags")
+	r.Rule("R8", "Finish saves only an initialised engine (C17 R5): what the pre-VM hook's clean-up did to a blocked session's flags is never stored")
 	r.Rule("R7", "the last loaded value is not consumed before the engine takes it as the exit value")
 
 	fTerm, ok1 := constOf(w, r, "state", "FLAG_TERMINATE")
@@ -34,6 +35,7 @@ func runC20(w *core.World, r *core.Report) {
 		return
 	}
 	checkExitValueNotConsumedEarlier(w, r, "R7")
+	checkFinishSavesOnlyInitialised(w, r, "R8")
 	run := anchor(w, r, "vm", "(*Vm).Run")
 	roles := resolveEngineRoles(w)
 	labels := roleLabels(w, r)
@@ -122,32 +124,8 @@ func runC20(w *core.World, r *core.Report) {
 		}
 	}
 	r.Floor("R2", "exiting=true stores", nex, 1)
-	fl := anchor(w, r, "engine", "(*DefaultEngine).Flush")
-	var resetFn *ssa.Function
-	if fl != nil {
-		var exitingFalse []core.Edge
-		for _, b := range fl.Blocks {
-			for _, in := range b.Instrs {
-				if v, ok := in.(ssa.Value); ok {
-					if _, f, ok := core.LoadedField(v); ok && f == "exiting" {
-						exitingFalse = append(exitingFalse, core.EdgesWhere(v, false)...)
-					}
-				}
-			}
-		}
-		cut := core.NewCut().AddEdge(exitingFalse...)
-		nreset := 0
-		for _, c := range core.Calls(fl) {
-			if g := core.StaticCallee(c); g != nil && core.PkgOf(g) == "engine" && len(core.CallsTo(g, "state.(*State).Restart")) > 0 {
-				cut.AddInstr(c.(ssa.Instruction))
-				resetFn = g
-				nreset++
-			}
-		}
-		in, path := core.Reach(core.Entry(fl), isSuccessReturnPred(fl), cut)
-		r.Check(in == nil && nreset > 0 && len(exitingFalse) > 0, "R2", "engine.(*DefaultEngine).Flush: reset on graceful end", fl.Pos(), "every non-error return passes the reset or the exiting==false edge",
-			"Flush can deliver the final output of a gracefully ended session without resetting it: the session is persisted un-unwound and the next request starts below the old path with a stale cache: "+w.PathString(path))
-	}
+	_ = anchor(w, r, "engine", "(*DefaultEngine).Flush")
+	resetFn := checkFlushResetsOnGracefulEnd(w, r, "R2")
 	if resetFn != nil {
 		r.Touch(core.QName(resetFn))
 		for _, fc := range []struct {
@@ -403,4 +381,38 @@ func checkDirtyBehindGate(w *core.World, r *core.Report, rule string) {
 		r.Check(ok && len(tests) > 0, rule, "vm.(*Vm).Run: DIRTY only when an instruction will run", c.Pos(), "behind the TERMINATE-unset edge",
 			"output is marked pending although the session may be blocked: a terminated session then renders a page on every later request: "+w.PathString(path))
 	}
+}
+
+// checkFlushResetsOnGracefulEnd: every non-error return of Flush passes the engine's reset (the
+// function of the engine that restarts the state) or the exiting==false edge. Returns the reset.
+func checkFlushResetsOnGracefulEnd(w *core.World, r *core.Report, rule string) *ssa.Function {
+	fl := w.Func("engine", "(*DefaultEngine).Flush")
+	if fl == nil {
+		r.Undecided(rule, "engine.(*DefaultEngine).Flush", token.NoPos, "anchor not found")
+		return nil
+	}
+	var resetFn *ssa.Function
+	var exitingFalse []core.Edge
+	for _, b := range fl.Blocks {
+		for _, in := range b.Instrs {
+			if v, ok := in.(ssa.Value); ok {
+				if _, f, ok := core.LoadedField(v); ok && f == "exiting" {
+					exitingFalse = append(exitingFalse, core.EdgesWhere(v, false)...)
+				}
+			}
+		}
+	}
+	cut := core.NewCut().AddEdge(exitingFalse...)
+	nreset := 0
+	for _, c := range core.Calls(fl) {
+		if g := core.StaticCallee(c); g != nil && core.PkgOf(g) == "engine" && len(core.CallsTo(g, "state.(*State).Restart")) > 0 {
+			cut.AddInstr(c.(ssa.Instruction))
+			resetFn = g
+			nreset++
+		}
+	}
+	in, path := core.Reach(core.Entry(fl), isSuccessReturnPred(fl), cut)
+	r.Check(in == nil && nreset > 0 && len(exitingFalse) > 0, rule, "engine.(*DefaultEngine).Flush: reset on graceful end", fl.Pos(), "every non-error return passes the reset or the exiting==false edge",
+		"Flush can deliver the final output of a gracefully ended session without resetting it: the session is persisted un-unwound and the next request starts below the old path with a stale cache: "+w.PathString(path))
+	return resetFn
 }
